@@ -98,6 +98,22 @@ def pytask_execute_task(session: Session, task: PTask) -> bool | None:
             if i.outcome == CollectionOutcome.FAIL and i.exc_info:
                 raise i.exc_info[1]
 
+        # A generated task whose signature is already used by a task of the session or
+        # by another generated task fails the task generator. Otherwise, both tasks
+        # would be merged into one node of the DAG and one of them would be dropped
+        # silently.
+        signatures = {t.signature for t in session.tasks}
+        for i in new_reports:
+            if i.outcome == CollectionOutcome.SUCCESS and isinstance(i.node, PTask):
+                if i.node.signature in signatures:
+                    msg = (
+                        f"The task generator {task.name!r} created the task "
+                        f"{i.node.name!r}, but there is already a task with the same "
+                        "name. Rename one of them."
+                    )
+                    raise ValueError(msg)
+                signatures.add(i.node.signature)
+
         session.tasks.extend(
             i.node
             for i in new_reports
